@@ -267,6 +267,28 @@ def run_cases(chk, tier):
         except Exception as e:  # noqa: BLE001
             chk.violation(f"sjoin/{how}/raises-{common.err_kind(e)}/other-geometry-columns", dict(rep, error=repr(e)[:300]), size=6)
         chk.count("other-geometry-columns")
+    # single-precision points joined with double-precision shapes whose sides single precision cannot represent (odd coordinates
+    # around 2^24; points at even ones, one unit inside or outside a side): the shape is compared as stored
+    B = 2 ** 24
+    for k in range(4 if tier == "quick" else 30):
+        x0, y0 = B + 1 + 2 * r.randint(0, 3), B + 3 + 2 * r.randint(0, 3)
+        x1, y1 = x0 + 2 * r.randint(4, 9), y0 + 2 * r.randint(4, 9)
+        shapes = [[[x0, y0, x1, y0, x1, y1, x0, y1, x0, y0]], [[x0 + 4, y0 + 4, x1 + 6, y0 + 4, x1 + 6, y1 + 6, x0 + 4, y1 + 6, x0 + 4, y0 + 4]]]
+        lpts = [[x0 + 1, y0 + 1], [x0 + 5, y0 + 1], [x0 + 1, y0 + 5], [x1 - 1, y1 - 1], [x0 - 1, y0 + 3], [x0 + 3, y0 - 1], [x1 + 1, y1 - 3], [x1 + 5, y1 + 5]]
+        for how in ("inner", "left"):
+            rep = dict(api="sjoin", how=how, left_points=lpts, kind="polygon", right_shapes=shapes, layout="float32 points, float64 shapes")
+            try:
+                ldf = GeoDataFrame({"lv": list(range(len(lpts))), "geometry": geo.make_array("point", lpts, "float32")})
+                rdf = GeoDataFrame({"rv": [10, 11], "geometry": geo.make_array("polygon", shapes, "float64")})
+                res = sjoin(ldf, rdf, how=how)
+                got = sorted(str((None if pd.isna(a) else int(a), None if pd.isna(b) else int(b))) for a, b in zip(res["lv"], res["rv"]))
+                want = sorted(str((i, None if j is None else 10 + j)) for i, j in model_join(how, lpts, "polygon", shapes))
+                chk.evaluated(len(res))
+                if got != want:
+                    chk.violation(f"sjoin/{how}/rows-differ/mixed-precision", dict(rep, got=got, expected=want), size=len(lpts))
+            except Exception as e:  # noqa: BLE001
+                chk.violation(f"sjoin/{how}/raises-{common.err_kind(e)}/mixed-precision", dict(rep, error=repr(e)[:300]), size=len(lpts))
+        chk.count("mixed-precision")
     # name clash with the generated index columns must be rejected
     from spatialpandas import GeoDataFrame, sjoin
     l = GeoDataFrame({"index_right": [1.0], "geometry": geo.make_array("point", [[0, 0]], "float64")})
